@@ -95,6 +95,8 @@ type RawPeer struct {
 	done    chan struct{}
 	raw     []byte
 	KeepRaw bool
+	// NoPong switches AutoPong off after Start (AutoPong itself must not be written once the reader runs).
+	NoPong atomic.Bool
 	// Paused makes the reader goroutine stop reading (the library's writes then fill the transport window).
 	Paused atomic.Bool
 }
@@ -132,7 +134,7 @@ func (rp *RawPeer) Start() {
 						rp.OnFrame(f)
 					}
 					switch {
-					case f.Op == wire.OpPing && rp.AutoPong:
+					case f.Op == wire.OpPing && rp.AutoPong && !rp.NoPong.Load():
 						rp.Send(wire.Pong(f.Payload))
 					case f.Op == wire.OpClose && rp.AutoClose:
 						rp.AutoClose = false
